@@ -160,7 +160,7 @@ def judge(rec, meta, counters):
     counters["ambiguous_oneOf_matches_skipped"] += amb[0]
     probe_ix = {}
     for p in probes:
-        if p["key"] is not None and p["instance"] in reads_back:
+        if p["key"] is not None and p["instance"] in reads_back and not (p.get("ok_without") and p.get("read_as_the_same_value") is False):
             probe_ix[(p["instance"], tuple(p["path"]), p["key"])] = p["ok_without"]
     for d in nodes.values():
         node = d["node"]
